@@ -690,8 +690,9 @@ def c09(res: Result):
 def c10(res: Result):
     q = res.tier == Q
     rng = random.Random(res.seed + 10)
-    tasks = pure_tasks(rng, q, ["pn", "restrict", "percnet"], 8 if q else 40, [3, 3, 4, 4, 5] if q else [3, 4, 5, 5, 6], N(q, 400, 4000))
-    res.cov["rule"] = ("network_to_petrinet, restrict_petrinet_to_subspace (also applied twice, as node_percolated_petri_net does) and "
+    tasks = pure_tasks(rng, q, ["pn", "restrict", "percnet", "sdpn"], 8 if q else 40, [3, 3, 4, 4, 5] if q else [3, 4, 5, 5, 6], N(q, 400, 4000))
+    res.cov["rule"] = ("network_to_petrinet, restrict_petrinet_to_subspace (also applied twice, as node_percolated_petri_net does; and the nets "
+                       "SuccessionDiagram.node_percolated_petri_net returns for child nodes with and without a cached parent net) and "
                        "percolate_network (with/without constant removal) on all two-variable and random 3-6 variable networks; TLC checks "
                        "for every state of the subspace and every remaining variable that an up/down transition is enabled iff the update "
                        "function disagrees with the current value in that direction, and that the variables are exactly those left free. "
